@@ -47,6 +47,7 @@ NewH(lp, sync) == [live |-> TRUE, sync |-> sync, lp |-> lp,
                    edited |-> FALSE,     \* an edit happened since the last solve
                    dirty |-> FALSE,      \* an edit happened since the last dump
                    lastres |-> [none |-> TRUE],   \* [status, val] of the last solve / solution observation
+                   lastany |-> [none |-> TRUE],   \* [rval, status, call] of the last solve call, definitive or not
                    truth |-> [none |-> TRUE],   \* verified witness of the LP's true status (reset by edits)
                    limits |-> FALSE]     \* iteration / objective limits set (non-definitive results legal)
 
@@ -448,6 +449,7 @@ Step(ev) ==
                                                THEN {V(ev, {"C03"}, "returned status/rval differ from the driver's return event")} ELSE {}))
                               ELSE {}
                IN R([Mutated(s) EXCEPT !.edited = FALSE,
+                                       !.lastany = [rval |-> ev.rval, status |-> ev.status, call |-> c],
                                        !.lastres = IF ev.rval = 0 /\ Definitive(ev.status)
                                                    THEN [status |-> ev.status, call |-> c, val |-> IF ev.status = 1 /\ hasxy THEN S!ObjVal(L, SubSeq(ev.x, 1, L.n)) ELSE "?"]
                                                    ELSE [none |-> TRUE]],
@@ -611,6 +613,14 @@ Next ==
                  bad == ~IsNone(r1) /\ ~IsNone(r2) /\ (r1.status # r2.status \/ (r1.status = 1 /\ r1.val # "?" /\ v2 # "?" /\ r1.val # v2)) IN
              /\ viol' = viol \cup (IF bad THEN {V(ev, SetOfSeq(ev.props), "answers differ: " \o ev.h \o " (" \o r1.call \o ": status " \o ToString(r1.status) \o ", value " \o r1.val \o ") vs "
                                                                             \o ev.h2 \o " (" \o r2.call \o ": status " \o ToString(r2.status) \o ", value " \o r2.val \o ")")} ELSE {})
+             /\ UNCHANGED <<st, slot, ans, glob>>
+          ELSE IF ev.call = "same_outcome" THEN
+             \* the same solve call was made on a problem and on its fresh copy (same data, same parameters, no edit in between):
+             \* return value and status - definitive or not (iteration / objective limits) - must be the same
+             LET a == IF st[ev.h].live THEN st[ev.h].lastany ELSE NoneR  b == IF st[ev.h2].live THEN st[ev.h2].lastany ELSE NoneR
+                 bad == ~IsNone(a) /\ ~IsNone(b) /\ (a.rval # b.rval \/ a.status # b.status) IN
+             /\ viol' = viol \cup (IF bad THEN {V(ev, SetOfSeq(ev.props), "the same solve behaves differently on a problem and on its copy: " \o ev.h \o " (" \o a.call \o ": rval " \o ToString(a.rval)
+                                          \o ", status " \o ToString(a.status) \o ") vs " \o ev.h2 \o " (rval " \o ToString(b.rval) \o ", status " \o ToString(b.status) \o ")")} ELSE {})
              /\ UNCHANGED <<st, slot, ans, glob>>
           ELSE IF ev.call = "expect_lp" THEN
              \* the problem a generated file denotes (Gen_LPFile / Gen_MPSFile): what the reader delivered must be exactly that
